@@ -86,6 +86,10 @@ BYTES_OPT_REF = T("Option<&'a [u8]>", "Ty::Opt(Box::new(Ty::Bytes))", "if p.pres
                   borrow=lambda x, is_b: "if let Some(s) = %s { if !%s { return Err(\"Option<&[u8]> field does not point into the input\".into()) } }" % (x, WITHIN % ("s", "s")))
 BYTES_OPT_VEC = T("Option<Vec<u8>>", "Ty::Opt(Box::new(Ty::Bytes))", "if p.present(rng) { Some(vcore::gen::gen_bytes(rng, false)) } else { None }",
                   lambda x: "match %s { None => View::None, Some(b) => View::Some(Box::new(View::Bytes(b.to_vec()))) }" % x, attrs=['with = "minicbor::bytes"'], nilable=True)
+BYTES_OPT_VEC_Q = T("std::option::Option<Vec<u8>>", "Ty::Opt(Box::new(Ty::Bytes))", "if p.present(rng) { Some(vcore::gen::gen_bytes(rng, false)) } else { None }",
+                    lambda x: "match %s { None => View::None, Some(b) => View::Some(Box::new(View::Bytes(b.to_vec()))) }" % x, attrs=['with = "minicbor::bytes"'], nilable=True)
+BYTES_OPT_VEC_C = T("core::option::Option<Vec<u8>>", "Ty::Opt(Box::new(Ty::Bytes))", "if p.present(rng) { Some(vcore::gen::gen_bytes(rng, false)) } else { None }",
+                    lambda x: "match %s { None => View::None, Some(b) => View::Some(Box::new(View::Bytes(b.to_vec()))) }" % x, attrs=['with = "minicbor::bytes"'], nilable=True)
 NIL_WITH = T("u32", "Ty::NilU32", "if p.present(rng) { 1 + (vcore::gen::gen_int(rng, 31, false) as u32) } else { 0 }", lambda x: "View::U(*%s as u64)" % x,
              attrs=['with = "dsupport::codecs::nilu32"', "has_nil"], nilable=True)
 NIL_FNS = T("u32", "Ty::NilU32", "if p.present(rng) { 1 + (vcore::gen::gen_int(rng, 31, false) as u32) } else { 0 }", lambda x: "View::U(*%s as u64)" % x,
@@ -96,7 +100,10 @@ for _t in (STR_REF, COW_STR, BYTESLICE_REF, COW_BYTESLICE, BYTES_REF, BYTES_COW,
 
 PLAIN = [U8, U16, U32, U64, I8, I16, I32, I64, BOOL, CHAR, F32, F64, STRING, BYTEVEC]
 BORROWING = [STR_REF, COW_STR, BYTESLICE_REF, COW_BYTESLICE, BYTES_REF, BYTES_COW]
-CODEC = [BYTES_VEC, BYTES_ARR, BYTES_OPT_REF, BYTES_OPT_VEC, NIL_WITH, NIL_FNS]
+CODEC = [BYTES_VEC, BYTES_ARR, BYTES_OPT_REF, BYTES_OPT_VEC, BYTES_OPT_VEC_Q, BYTES_OPT_VEC_C, NIL_WITH, NIL_FNS]
+
+
+OPT_COUNTER = [0]
 
 
 def opt(t):
@@ -106,7 +113,10 @@ def opt(t):
         b = lambda x, is_b, t=t: (lambda inner: "if let Some(s) = %s { %s }" % (x, inner) if inner else None)(t.borrow("s", is_b))
     else:
         b = None
-    r = T("Option<%s>" % t.rust, "Ty::Opt(Box::new(%s))" % t.ty, "if p.present(rng) { Some(%s) } else { None }" % t.gen,
+    # the three spellings of the same type must be treated alike by the macros
+    OPT_COUNTER[0] += 1
+    spelling = "std::option::Option" if OPT_COUNTER[0] % 5 == 0 else ("core::option::Option" if OPT_COUNTER[0] % 7 == 0 else "Option")
+    r = T("%s<%s>" % (spelling, t.rust), "Ty::Opt(Box::new(%s))" % t.ty, "if p.present(rng) { Some(%s) } else { None }" % t.gen,
           lambda x, t=t: "match %s { None => View::None, Some(s) => View::Some(Box::new(%s)) }" % (x, t.view("s")), lifetime=t.lifetime, borrow=b, nilable=True)
     r.free_b = t in (STR_REF, BYTESLICE_REF)
     return r
@@ -691,8 +701,8 @@ def gen_chain(rnd, cid, pool, force=None):
             edit = "unit_to_fields"
         if force and step == 2:
             edit = "add_gap"
-            newt = [BYTES_OPT_VEC, NIL_FNS, opt(U8), opt(STRING), BYTES_OPT_VEC][force[4]]
-        newt = rnd.choice([opt(U8), opt(STRING), opt(vec(U16)), NIL_WITH, opt(I64), opt(bmap(BOOL)), BYTES_OPT_VEC, NIL_FNS, alias(opt(U32))])
+            newt = [BYTES_OPT_VEC, NIL_FNS, BYTES_OPT_VEC_Q, opt(STRING), BYTES_OPT_VEC_C][force[4]]
+        newt = rnd.choice([opt(U8), opt(STRING), opt(vec(U16)), NIL_WITH, opt(I64), opt(bmap(BOOL)), BYTES_OPT_VEC, BYTES_OPT_VEC_Q, BYTES_OPT_VEC_C, NIL_FNS, alias(opt(U32))])
         if edit == "add_high":
             ns.fields.append(Field("a%d" % step, max(used) + rnd.choice([1, 1, 2, 5]), newt, tag=rnd.choice([None, None, 9, 300])))
         elif edit == "add_gap":
